@@ -182,6 +182,11 @@ def full_state(system, identity=True, graph=True, objs=None):
     E = env.load()
     st = {}
     for o in (objs if objs is not None else all_objects(system)):
+        try:
+            # the reverse look-up (who references me), as a user reads it
+            st[(o.name, "<referenced by>")] = ("raw", 0, tuple(sorted(c.name for c in o.modeling_obj_containers)))
+        except Exception as e:
+            st[(o.name, "<referenced by>")] = ("raw", 0, f"raised {type(e).__name__}")
         for k, v in o.__dict__.items():
             if k in INTERNAL or k in BOOKKEEPING:
                 continue
